@@ -1346,6 +1346,19 @@ TranscodeNumber(
 
 
 
+// Converting a double that is out of range to an integral
+// type is undefined, so check the range first.
+static inline bool
+isInXMLInt64Range(double    theValue)
+{
+    // 2^63
+    const double    theLimit = 9223372036854775808.0;
+
+    return theValue >= -theLimit && theValue < theLimit;
+}
+
+
+
 static const char* const    thePrintfStrings[] =
 {
     "%.10f",
@@ -1435,7 +1448,8 @@ DOMStringHelper::NumberToCharacters(
             theZeroString,
             sizeof(theZeroString) / sizeof(theZeroString[0]) - 1);
     }
-    else if (static_cast<XMLInt64>(theValue) == theValue)
+    else if (isInXMLInt64Range(theValue) == true &&
+             static_cast<XMLInt64>(theValue) == theValue)
     {
         NumberToCharacters(static_cast<XMLInt64>(theValue), formatterListener, function);
     }
@@ -1735,7 +1749,8 @@ NumberToDOMString(
             theZeroString,
             sizeof(theZeroString) / sizeof(theZeroString[0]) - 1);
     }
-    else if (static_cast<XMLInt64>(theValue) == theValue)
+    else if (isInXMLInt64Range(theValue) == true &&
+             static_cast<XMLInt64>(theValue) == theValue)
     {
         NumberToDOMString(static_cast<XMLInt64>(theValue), theResult);
     }
